@@ -81,6 +81,7 @@ func GenSeq(rt *rapid.T) *Record {
 	r := &Record{Mode: "seq"}
 	genWorld(rt, r)
 	r.Real = rapid.IntRange(0, 3).Draw(rt, "real_export") == 0
+	impFocus := r.Real && rapid.IntRange(0, 2).Draw(rt, "importer_focus") == 0
 	faults := rapid.IntRange(0, 3).Draw(rt, "faulty_run") != 0 // 25% fault-free
 	n := rapid.IntRange(1, 40).Draw(rt, "nops")
 	var ops []Op
@@ -91,10 +92,14 @@ func GenSeq(rt *rapid.T) *Record {
 			op := Op{Kind: "find", Pkgs: []int{genPkg(rt, r)}, Fault: genFault(rt, faults)}
 			if r.Real {
 				switch v := rapid.IntRange(0, 9).Draw(rt, "via"); {
+				case impFocus && v < 8:
+					// importer-centred record: few packages, mostly the run's long-lived importer
+					op.Pkgs[0] = rapid.IntRange(0, min(3, r.NPkgs-1)).Draw(rt, "ipkg")
+					op.Kind, op.A, op.B = "import_nocache", rapid.IntRange(0, 3).Draw(rt, "from_dir"), min(1, rapid.IntRange(0, 3).Draw(rt, "long_lived"))
 				case v < 5:
 					op.Kind, op.A = "import", v
-				case v < 6:
-					op.Kind, op.A = "import_nocache", v
+				case v < 7:
+					op.Kind, op.A, op.B = "import_nocache", rapid.IntRange(0, 3).Draw(rt, "from_dir"), rapid.IntRange(0, 1).Draw(rt, "long_lived")
 				}
 			}
 			ops = append(ops, op)
